@@ -6,6 +6,7 @@ import OpusProofs.RangeCoderLockstep3
 import OpusProofs.RangeCoderFlags
 import OpusProofs.RangeCoderCodes
 import OpusProofs.SilkSymsEncRoundTrip
+import OpusProofs.OpusFrameSilk
 /-
   Property C08 — "Range coder: the decoder inverts the encoder symbol for symbol, within budget".
 
@@ -496,6 +497,62 @@ example : (packetOps exampleCfg examplePacket).length = 496 ∧
     (silkCalls exampleCfg 2 true {} (decInit ((encodeAll (List.replicate 200 0) 200 (packetOps exampleCfg examplePacket)).buf.take
       (encodeAll (List.replicate 200 0) 200 (packetOps exampleCfg examplePacket)).storage)
       (encodeAll (List.replicate 200 0) 200 (packetOps exampleCfg examplePacket)).storage)).1.length = 22 := by
+  decide +kernel
+
+/-! ## Frame-level lock step: encoder `rangeFinal` = decoder final range -/
+
+open Opus.SilkSyms Opus.SilkSymsEnc Opus.SilkSymsEncProofs Opus.OpusFrameEnc Opus.OpusFrameProofs in
+/-- C02's clause "ends each packet with a range-coder final state identical to the one the encoder reports", at
+    the symbol level, for a SILK-only Opus frame without redundancy.
+    Encoder model: `silkOnlyFrame` (OpusModel/OpusFrameEnc.lean; opus_encoder.c:1871, 2271-2275, 2421, 2446-2467):
+    `ec_enc_init(data+1, max_data_bytes-1)`, the SILK payload (`packetOps`), `ret = (ec_tell+7)>>3`, `ec_enc_done`,
+    `rangeFinal = enc.rng`, and the trailing-zero strip `while(ret>2&&data[ret]==0)ret--`; the frame handed to the
+    packet layer is the first `ret` bytes.  Decoder model: C03's `decodeOpusFrame` (SILK layer + redundancy parse),
+    untouched, run on exactly those bytes with the mode / bandwidth / channel count / duration of the TOC.
+    For every NB/MB/WB bandwidth, 10/20/40/60 ms, every `PacketOk` input, any caller buffer content and any decoder
+    history: on the encoder's normal path (`ec_tell ≤ 8·(max_data_bytes−1)`, i.e. not the "SILK busted its target"
+    fallback; `ec_enc_done` without error) the decoder infers NO redundancy from the frame length, reports exactly
+    what was encoded (`packetEvs`), its error flag is clear, and its final range `dec.rng` — what
+    `OPUS_GET_FINAL_RANGE` returns — equals the encoder's `rangeFinal`.
+    What makes the cut and the strip harmless is proved, not assumed: without raw bits `ec_enc_done` writes only
+    zeros from byte `(ec_tell+7)>>3` on (`encDone_zero_tail`: `ec_tell` is a conservative count), and the decoder
+    reads zeros beyond the end of its buffer (`contains_trunc`). -/
+theorem opus_frame_lockstep_silk (buf : List Nat) (maxData bandwidth nCh ms10 : Nat) (pk : PacketIn) (st : SilkSt)
+    (hbw : bandwidth = 1101 ∨ bandwidth = 1102 ∨ bandwidth = 1103)
+    (hms : ms10 = 100 ∨ ms10 = 200 ∨ ms10 = 400 ∨ ms10 = 600)
+    (hs : maxData - 1 ≤ buf.length) (hb : BytesOk buf) (hok : PacketOk (silkCfg bandwidth nCh ms10) pk)
+    (hn : (encodeAll buf (maxData - 1) (packetOps (silkCfg bandwidth nCh ms10) pk)).nbitsTotal < 4294967296)
+    (herr : (encodeAll buf (maxData - 1) (packetOps (silkCfg bandwidth nCh ms10) pk)).error = 0)
+    (hfit : tell (encRun (encInit buf (maxData - 1)) (packetOps (silkCfg bandwidth nCh ms10) pk)) ≤
+      8 * ((maxData - 1 : Nat) : Int)) :
+    ∃ o, decodeOpusFrame 1000 bandwidth nCh ms10 false st
+        (silkOnlyFrame buf maxData (silkCfg bandwidth nCh ms10) pk).payload = .ok o ∧
+      o.redundancy = 0 ∧ o.dec.error = 0 ∧
+      o.dec.rng = (silkOnlyFrame buf maxData (silkCfg bandwidth nCh ms10) pk).rangeFinal ∧
+      (silkOnlyFrame buf maxData (silkCfg bandwidth nCh ms10) pk).rangeFinal =
+        (encRun (encInit buf (maxData - 1)) (packetOps (silkCfg bandwidth nCh ms10) pk)).rng ∧
+      o.evs = packetEvs (silkCfg bandwidth nCh ms10) pk (fun j =>
+        ((encRun (encInit buf (maxData - 1)) (prefixOps (silkCfg bandwidth nCh ms10) pk j)).rng,
+         tell (encRun (encInit buf (maxData - 1)) (prefixOps (silkCfg bandwidth nCh ms10) pk j)))) :=
+  opus_frame_lockstep_silk_all buf maxData bandwidth nCh ms10 pk st hbw hms hs hb hok hn herr hfit
+
+/-- NB mono 10 ms frame from `exampleIx` / `examplePulses`, budget 101 bytes, caller buffer full of 0xAA. -/
+def exampleMonoPacket : Opus.SilkSymsEnc.PacketIn :=
+  { ch0 := { vad := [1], lbrrFlags := [0], lbrr := [], frames := [⟨exampleIx, examplePulses⟩], prev := {} },
+    ch1 := default, predIx := [], midOnly := [], lbrrPredIx := [], lbrrMidOnly := [] }
+
+open Opus.SilkSyms Opus.SilkSymsEnc Opus.SilkSymsEncProofs Opus.OpusFrameEnc in
+example : PacketOk (silkCfg 1101 1 100) exampleMonoPacket :=
+  ⟨by decide, by decide, by decide, by decide, by decide +kernel, by decide +kernel, by decide +kernel,
+   by decide +kernel, by decide +kernel, by decide +kernel⟩
+
+open Opus.SilkSyms Opus.SilkSymsEnc Opus.OpusFrameEnc in
+example : (encodeAll (List.replicate 100 170) 100 (packetOps (silkCfg 1101 1 100) exampleMonoPacket)).error = 0 ∧
+    tell (encRun (encInit (List.replicate 100 170) 100) (packetOps (silkCfg 1101 1 100) exampleMonoPacket)) = 247 ∧
+    (silkOnlyFrame (List.replicate 100 170) 101 (silkCfg 1101 1 100) exampleMonoPacket).payload.length = 31 ∧
+    (match decodeOpusFrame 1000 1101 1 100 false {} (silkOnlyFrame (List.replicate 100 170) 101 (silkCfg 1101 1 100) exampleMonoPacket).payload with
+     | .ok o => decide (o.dec.rng = (silkOnlyFrame (List.replicate 100 170) 101 (silkCfg 1101 1 100) exampleMonoPacket).rangeFinal ∧ o.redundancy = 0)
+     | _ => false) = true := by
   decide +kernel
 
 end OpusProps.C08
